@@ -1,5 +1,6 @@
 import SdbModel.Model.Reconciler
 import SdbModel.Model.ReconcilerBatch
+import SdbModel.Generated.LoopParams
 import Driver.Util
 /-! driver suite `rec` (C14, C15, C16): the reconciler under virtual time vs Model.Reconciler -/
 namespace Drv.RecS
@@ -9,6 +10,9 @@ structure S where
   r : R := {}
   oracleOnly : Bool := false
   waiters : List Nat := []      -- targets of the goroutines inside WaitUntilReconciled
+  /-- cfg …-xprune: the loop variables of reconcileLoop, driven through the TRANSLATED iteration function `Gen.loopStep` -/
+  loop : Option RecLoop.LoopState := none
+  prunes : Nat := 0
   batch : Bool := false    -- BatchOperations configured: rounds of Model.ReconcilerBatch
   printed : Nat := 0       -- calls already reported
   deriving Inhabited
@@ -23,8 +27,17 @@ def showState (s : S) : S × String :=
   -- (Model.Progress: C16_wait_returns_only_when_reached, C16_wait_no_lost_wakeup)
   let ws := if s.waiters.isEmpty then "" else
     " waiters=" ++ ",".intercalate (s.waiters.map fun t => if t ≤ s.r.progressRev then "ret" else "wait")
-  let str := s!"calls=[{" ".intercalate cs.toList}] objs=[{" ".intercalate objs}] lw={if s.r.progressLW = 0 then "0" else "+"}{ws}{if s.r.tieSeen then " #tie" else ""}"
+  let pr := if s.loop.isSome then s!" prunes={s.prunes}" else ""
+  let str := s!"calls=[{" ".intercalate cs.toList}] objs=[{" ".intercalate objs}] lw={if s.r.progressLW = 0 then "0" else "+"}{ws}{pr}{if s.r.tieSeen then " #tie" else ""}"
   ({ s with printed := s.r.log.length }, str)
+
+/-- one iteration of reconcileLoop with the given trigger, on the translated function; periodic pruning is off -/
+def loopTrigger (s : S) (t : RecLoop.Trigger) : S :=
+  match s.loop with
+  | none => s
+  | some st =>
+    let (st', called) := Gen.loopStep false st t
+    { s with loop := some st', prunes := s.prunes + (if called then 1 else 0) }
 
 def after (s : S) (r : R) : S × String :=
   let s := { s with r := if s.batch then r.quiesceB 256 else r.quiesce 256 }
@@ -35,8 +48,16 @@ def step (s : S) (ws : List String) : S × String :=
   | ["cfg", minB, maxB, rs, mode] =>
     match minB.toNat?, maxB.toNat?, rs.toNat? with
     | some a, some b, some c =>
-      after { r := { cfg := { minB := a, maxB := b, roundSize := c } }, oracleOnly := !mode.startsWith "exact",
-              batch := (mode.splitOn "-batch").length > 1 } { cfg := { minB := a, maxB := b, roundSize := c } }
+      let xprune := (mode.splitOn "-xprune").length > 1
+      let withInit := (mode.splitOn "-init").length > 1
+      -- a table without a pending initializer: its init watch is closed from the start, the first iteration is triggered by it
+      let lp : Option RecLoop.LoopState := if xprune then some Gen.loopInit else none
+      let r0 : R := { cfg := { minB := a, maxB := b, roundSize := c } }
+      let oo : Bool := !mode.startsWith "exact"
+      let bt : Bool := (mode.splitOn "-batch").length > 1
+      let s0 : S := { r := r0, oracleOnly := oo, batch := bt, loop := lp }
+      let s0 := if xprune && !withInit then loopTrigger s0 .initClosed else s0
+      after s0 { cfg := { minB := a, maxB := b, roundSize := c } }
     | _, _, _ => (s, "bad-op")
   | ["tinybackoff", _, _] => (s, "converged")  -- real-time probe (retry processed in the round that queued it): C14_converged_quiesce
   | ["put", id, data] =>
@@ -67,7 +88,6 @@ def step (s : S) (ws : List String) : S × String :=
         | _ => r
       else r) s.r
     after s r
-  | ["initdone"] => after s s.r
   | ["putraw", _, _] => if s.oracleOnly then after s s.r else (s, "bad-op")
   | ["touch", id] =>
     match id.toNat? with
@@ -93,6 +113,13 @@ def step (s : S) (ws : List String) : S × String :=
     match k.toNat? with
     | some k => after { s with waiters := s.waiters ++ [s.r.tableRev + k] } s.r
     | none => (s, "bad-op")
+  | ["extprune"] => after (loopTrigger s .extPrune) s.r
+  | ["initdone"] =>
+    -- the init watch fires once (a nil channel is never selected)
+    let s := match s.loop with
+      | some st => if st.initWatchArmed then loopTrigger s .initClosed else s
+      | none => s
+    after s s.r
   | ["obs"] => after s s.r
   | ["final"] => (s, "-")
   | _ => (s, "bad-op")
